@@ -31,6 +31,7 @@ type c26Case struct {
 	Registrants int   `json:"registrants"`
 	Deregister bool   `json:"first_deregisters"`
 	Revoke     bool   `json:"revoke_fault"`
+	Watchers   bool   `json:"node_status_watchers,omitempty"` // second part (c26b_watchers.go)
 	Bound      int    `json:"preemption_bound"`
 	Choices    []int  `json:"choices,omitempty"`
 }
@@ -222,6 +223,10 @@ func c26Explore(t *testing.T, c *vcore.Ctx) {
 			c.HarnessError("replay: %v", err)
 			return
 		}
+		if cc.Watchers {
+			c26wExplore(t, c, b, &cc)
+			return
+		}
 		x := runSchedule(t, b, c26Scenario(&cc), cc.Choices)
 		c.Eval()
 		c26Check(c, &cc, x, cc.Choices)
@@ -259,6 +264,7 @@ func c26Explore(t *testing.T, c *vcore.Ctx) {
 		c.AddStates(int64(st.Executions))
 		c.AddTransitions(int64(st.Executions * (st.MaxPoints + 1)))
 	}
+	c26wExplore(t, c, b, nil)
 }
 
 func c26Check(c *vcore.Ctx, cc *c26Case, x *schedRun, choices []int) {
